@@ -16,7 +16,7 @@ P = {
          "Process-crash model of the property (effects reach the OS in program order; set_len/create/unlink atomic). Trusts the fs shim's event trace and the allowed-set oracle.", "4.2, 5 C02"),
  "C03": ("CRASH", "exhaustive crash-point enumeration under every persist policy, process-crash and power-loss images",
          "As C02 over 6 policy configurations with explicit persist ops in the alphabet; the oracle is 'recovered state is at least as recent as the last persisted point'; power-loss images drop unsynced data (per file none/all) and unsynced directory operations (every prefix).",
-         "Power-loss model: data before a file's last fsync durable, unsynced remainder none/all per file; directory ops durable as a prefix after the last directory fsync.", "4.2, 5 C03"),
+         "Power-loss model: data before a file's last fsync durable, unsynced effects as any prefix per file; directory ops durable as a prefix after the last directory fsync. Also started from a directory whose newest file was created but not sized, and (per-call-persist policies) continued by one call + restart after every recovery.", "4.2, 5 C03"),
  "C04": ("SEQ+CRASH", "bounded-exhaustive op sequences with a model-free position monitor; crash continuations",
          "Model-free monitor per queue incarnation (every assigned position exceeds everything appended or truncated-to before; automatic positions continue exactly) over all sequences from seeds in which a queue idles while its files are deleted, with restarts, both orders of GC position entries; plus after every crash recovery the first append per queue.",
          "Bound: depth after seeds. The crash part shares C02's crash model.", "5 C04"),
@@ -31,19 +31,19 @@ P = {
          "Geometry reduction: same code, two constants changed; boundary grid in the real geometry.", "4.5, 5 C07"),
  "C08": ("DAMAGE", "exhaustive single-fault enumeration (every byte x value set, zero ranges, length retargeting) over all images of short histories",
          "Every byte of every WAL image of the bound is overwritten with each of 14 values, every zero-fill range and every length-field value is tried; after open every recovered record must be one that was appended.",
-         "Single faults and contiguous ranges; CRC collisions excluded by the property.", "4.3, 5 C08"),
+         "Single faults, contiguous ranges, multi-site alterations inside one frame, pairs of faults in two different frames; continuations after a damaged open (append + restart; append cut short by a crash). Two genuine defects are recorded as known findings (D7: length field not under the CRC; D10: torn append completed by stale frames). CRC collisions excluded by the property.", "4.3, 5 C08"),
  "C09": ("DAMAGE", "exhaustive frame-aimed damage (every payload/CRC byte of every frame) with entry-identity oracle",
          "For every frame of every image, every payload byte and CRC byte is altered; open must succeed and every retained record not appended by the damaged entry must be recovered intact.",
-         "Frame table from the harness's own frame events.", "4.3, 5 C09"),
+         "Frame table from the harness's own frame events. After the damaged open, one append per queue and a restart: everything recovered before plus the new records must be there.", "4.3, 5 C09"),
  "C10": ("DAMAGE", "exhaustive sequences of structural damage ops and crafted CRC-valid entries; panic/tick/allocation oracles",
          "All sequences up to k of block/file damage operations on the images, plus a grammar of CRC-valid crafted entries, are opened under catch_unwind, a deterministic tick budget and an allocation bound; then every read accessor is called.",
          "Arbitrary byte strings are covered as byte faults + crafted grammar, not all 2^512 blocks.", "4.3, 5 C10"),
  "C11": ("FAULT", "exhaustive I/O fault placement (every recovery-time fs call x once/forever x error kinds)",
          "For images spanning 1-3 files every read_dir/open/read call of recovery is failed, once or forever, with each error kind; open must return Err(IoError) within the tick budget, never Ok.",
-         "Interrupted and UnexpectedEof excluded (std retries / defined as short file).", "4.4, 5 C11"),
+         "Interrupted excluded (std retries); UnexpectedEof injected at the first read only (elsewhere a short file means no more blocks). Images: as written, one flipped byte, first file cut to 0 / half a block, a single empty wal-0.", "4.4, 5 C11"),
  "C12": ("CRASH+DAMAGE", "exhaustive crash points and frame damage restricted to batch appends, batch-integrity oracle",
          "Histories containing multi-record batches at all alignments (1-5 blocks, across two files, sub-record boundaries on frame boundaries), every crash point inside the call, every single-frame damage of the batch (payload, CRC, type, length) and the whole in-place fault menu anywhere in images where the queue was deleted and re-created; a recovered batch is whole or absent (minus a truncated head).",
-         "Same crash/damage models as C02/C09.", "5 C12"),
+         "Same crash/damage models as C02/C09; plus pairs: a checksum failure in an earlier entry combined with each fault on a batch frame.", "5 C12"),
  "C13": ("SEQ", "bounded-exhaustive op sequences; I/O-trace emptiness + metamorphic restart comparison for every rejected/no-op call",
          "For every rejected or no-op call in every explored history: the I/O and frame trace of the call is empty, bytes==0, state and flushed WAL bytes unchanged, and the history without those calls restarts to the same state. Two policies.",
          "Trusts the fs shim to see every write (all file access of the crate goes through it).", "5 C13"),
